@@ -135,6 +135,28 @@ theorem nonstrict_degrades (base : Str) (s : ServiceSpec) (hc : s.doc.corrupted)
     have : sp.vars = none := hc
     simp [this]
 
+/-- **The run-time judge accepts every output of the model.** Whatever the description (well-formed
+    or not), base URL and mode: what the factory model returns for the trees and requester of `d`,
+    observed the way the driver observes the implementation (`observedOf` of the flattened graph or
+    the exception), satisfies `judge`. -/
+theorem judge_accepts_model [DecidableEq F] (norm : DevRow F → DevRow F) (d : DeviceSpec) (base : Str)
+    (nonStrict : Bool) (fuel : Nat) (hf : d.depth ≤ fuel) :
+    judge fo table norm nonStrict base d
+      (observedOf (match asyncCreateDevice fo table (serve base d) nonStrict base fuel with
+        | .ok m => .ok (flatten 0 m)
+        | .error e => .error e)) = true := by
+  unfold judge
+  cases hw : (d.wf fo table base && urlsOk base d) with
+  | false => simp
+  | true =>
+    simp only [Bool.and_eq_true] at hw
+    rw [factory_mirror fo d base nonStrict fuel hw.1 hw.2 hf]
+    cases hm : mirror fo table nonStrict base d with
+    | ok m => simp [observedOf]
+    | error e =>
+      have := (refusal_class fo d base nonStrict e hw.1 hm).2
+      cases e <;> simp [FErr.isXml] at this <;> simp [observedOf]
+
 /-- **One-to-one.** The created device has exactly the services of the description, in order, with
     their types; each service's model depends on that service's description only. -/
 theorem services_one_to_one (nonStrict : Bool) (base : Str) (info : List (Option Str)) (icons : List IconSpec)
